@@ -88,8 +88,7 @@ impl<W: UnsignedInt + ToBytes + FromBytes + FiniteRangeNumber, B: Write> WordWri
 
     #[inline]
     fn write_word(&mut self, word: W) -> Result<(), std::io::Error> {
-        let _ = self.backend.write(word.to_ne_bytes().as_ref())?;
-        Ok(())
+        self.backend.write_all(word.to_ne_bytes().as_ref())
     }
 
     fn flush(&mut self) -> Result<(), Self::Error> {
